@@ -4,21 +4,24 @@ import numpy as np
 import h5py
 import gen
 from core import derived_rng
-from util import call
+from util import call, quiet
 
 REQUIRED_THEOREMS = ['Usid.C06.total_and_exact', 'Usid.C06.wrapper_gate', 'Usid.C06.get_all_main_exact']
-RULE = ('trees of 1-4 datasets, each a generator-valid Main dataset with 0, 1 or 2 structural corruptions drawn from '
+RULE = ('[also: groups nested up to two levels and the search started at every top-level group, verbose=True, bytes / variable-length encodings of the string attributes, consistently short label lists, the return type] trees of 1-4 datasets, each a generator-valid Main dataset with 0, 1 or 2 structural corruptions drawn from '
         '%d kinds (missing/mistyped quantity or units; each link missing / not a reference / dangling / to a group / to '
         'a dataset of rank 0,1,3 / wrong rows or columns / indices-values shape mismatch; labels or units missing, '
         'inconsistent or of the wrong count) plus unrelated non-main datasets; all built with raw h5py; the descriptor '
         'given to the model is re-read from the file with raw h5py; non-trivial = at least one corrupted dataset')
 LINKS = ['Position_Indices', 'Position_Values', 'Spectroscopic_Indices', 'Spectroscopic_Values']
 LINK_CORR = ['missing', 'notref', 'dangling', 'group', 'rank1', 'rank0', 'rank3', 'rows', 'cols', 'nolabels', 'nounits',
-             'labels_diff', 'units_diff', 'labels_len', 'units_len', 'both_len', 'both_short', 'labels_last_diff']
+             'labels_diff', 'units_diff', 'labels_len', 'units_len', 'both_len', 'both_short', 'labels_last_diff',
+             'units_last_diff']
 MAIN_CORR = ['no_quantity', 'no_units', 'quantity_nonstr', 'units_nonstr', 'main_rank1', 'main_rank3', 'pair_shape_pos',
              'pair_shape_spec', 'both_labels_len_pos', 'both_labels_len_spec',
              # both ancillaries of one side resized TOGETHER: consistent with each other, not with the Main dataset
-             'side_more_pos', 'side_more_spec', 'side_less_pos', 'side_less_spec']
+             'side_more_pos', 'side_more_spec', 'side_less_pos', 'side_less_spec',
+             # both ancillaries of a side list consistently too FEW labels and units
+             'both_labels_short_pos', 'both_labels_short_spec']
 ALL_CORR = MAIN_CORR + ['%s:%s' % (l, c) for l in LINKS for c in LINK_CORR]
 RULE = RULE % len(ALL_CORR)
 
@@ -33,14 +36,22 @@ def generate(seed, tier):
             ds = gen.gen_dataset(rng, max_dims=2, max_size=3)
             k = rng.choice([0, 1, 1, 1, 2])
             corr = [ALL_CORR[(i * 7 + j * 3 + q * 11 + rng.randint(0, len(ALL_CORR) - 1)) % len(ALL_CORR)] for q in range(k)]
-            tree.append({'ds': ds, 'corr': corr})
-        cases.append({'tree': tree, 'extra': rng.random() < 0.5})
+            tree.append({'ds': ds, 'corr': corr,
+                         # other (equally valid) encodings of the string attributes: bytes scalars, variable-length strings
+                         'enc': rng.choice([None, None, None, 'bytes', 'vlen'])})
+        cases.append({'tree': tree, 'extra': rng.random() < 0.5, 'verbose': rng.random() < 0.25,
+                      # some groups are nested one or two levels down; the recursive search is also started there
+                      'nest': [rng.choice([0, 0, 1, 2]) for _ in tree]})
     if tier in ('thorough',):
         rng = derived_rng(seed, 'C06x', 0)
         ds = gen.gen_dataset(rng, max_dims=2, max_size=3)
         for c in ALL_CORR:           # every single corruption at least once
             cases.append({'tree': [{'ds': ds, 'corr': [c]}], 'extra': False})
     return cases
+
+
+def _bl(a):
+    return [x if isinstance(x, bytes) else str(x).encode() for x in a]
 
 
 def _replace(grp, name, shape, dtype, like):
@@ -100,14 +111,26 @@ def _corrupt(grp, h5_main, corr):
             d = grp[base + suffix]
             nd = _replace(grp, base + suffix, shp, d.dtype, d)
             grp['main'].attrs[base + suffix] = nd.ref
+    elif corr.startswith('both_labels_short'):
+        base = 'Position' if corr.endswith('pos') else 'Spectroscopic'
+        for suffix in ('_Indices', '_Values'):
+            if base + suffix not in grp or not isinstance(grp[base + suffix], h5py.Dataset):
+                return
+            d = grp[base + suffix]
+            if 'labels' not in d.attrs or 'units' not in d.attrs or len(d.attrs['labels']) < 2:
+                return
+        for suffix in ('_Indices', '_Values'):
+            d = grp[base + suffix]
+            d.attrs['labels'] = np.array(_bl(d.attrs['labels'])[:-1], dtype='S')
+            d.attrs['units'] = np.array(_bl(d.attrs['units'])[:-1], dtype='S')
     elif corr.startswith('both_labels_len'):
         base = 'Position' if corr.endswith('pos') else 'Spectroscopic'
         for suffix in ('_Indices', '_Values'):
             d = grp[base + suffix]
             if 'labels' not in d.attrs or 'units' not in d.attrs:
                 continue
-            d.attrs['labels'] = np.array(list(d.attrs['labels']) + [b'ZZ'], dtype='S')
-            d.attrs['units'] = np.array(list(d.attrs['units']) + [b'zz'], dtype='S')
+            d.attrs['labels'] = np.array(_bl(d.attrs['labels']) + [b'ZZ'], dtype='S')
+            d.attrs['units'] = np.array(_bl(d.attrs['units']) + [b'zz'], dtype='S')
     else:
         link, c = corr.split(':')
         main = grp['main'] if 'main' in grp and isinstance(grp['main'], h5py.Dataset) else None
@@ -144,28 +167,32 @@ def _corrupt(grp, h5_main, corr):
         elif ('labels' not in d.attrs) or ('units' not in d.attrs):
             return
         elif c == 'labels_diff':
-            lab = list(d.attrs['labels'])
+            lab = _bl(d.attrs['labels'])
             lab[0] = b'QQ'
             d.attrs['labels'] = np.array(lab, dtype='S')
         elif c == 'units_diff':
-            lab = list(d.attrs['units'])
+            lab = _bl(d.attrs['units'])
             lab[0] = b'qq'
             d.attrs['units'] = np.array(lab, dtype='S')
         elif c == 'labels_len':
-            d.attrs['labels'] = np.array(list(d.attrs['labels']) + [b'ZZ'], dtype='S')
+            d.attrs['labels'] = np.array(_bl(d.attrs['labels']) + [b'ZZ'], dtype='S')
         elif c == 'units_len':
-            d.attrs['units'] = np.array(list(d.attrs['units']) + [b'zz'], dtype='S')
+            d.attrs['units'] = np.array(_bl(d.attrs['units']) + [b'zz'], dtype='S')
         elif c == 'both_len':          # labels AND units of this one dataset extended (still a common prefix)
-            d.attrs['labels'] = np.array(list(d.attrs['labels']) + [b'ZZ'], dtype='S')
-            d.attrs['units'] = np.array(list(d.attrs['units']) + [b'zz'], dtype='S')
+            d.attrs['labels'] = np.array(_bl(d.attrs['labels']) + [b'ZZ'], dtype='S')
+            d.attrs['units'] = np.array(_bl(d.attrs['units']) + [b'zz'], dtype='S')
         elif c == 'both_short':        # ... or both truncated by one
             if len(d.attrs['labels']) > 1 and len(d.attrs['units']) > 1:
-                d.attrs['labels'] = np.array(list(d.attrs['labels'])[:-1], dtype='S')
-                d.attrs['units'] = np.array(list(d.attrs['units'])[:-1], dtype='S')
+                d.attrs['labels'] = np.array(_bl(d.attrs['labels'])[:-1], dtype='S')
+                d.attrs['units'] = np.array(_bl(d.attrs['units'])[:-1], dtype='S')
         elif c == 'labels_last_diff':
-            lab = list(d.attrs['labels'])
+            lab = _bl(d.attrs['labels'])
             lab[-1] = lab[-1] + b'_'
             d.attrs['labels'] = np.array(lab, dtype='S')
+        elif c == 'units_last_diff':
+            lab = _bl(d.attrs['units'])
+            lab[-1] = lab[-1] + b'_'
+            d.attrs['units'] = np.array(lab, dtype='S')
 
 
 def describe(f, obj):
@@ -226,8 +253,16 @@ def run_impl(inp, work):
     path = os.path.join(work, 'a.h5')
     with h5py.File(path, 'w') as f:
         for j, t in enumerate(inp['tree']):
-            g = f.create_group('G%d' % j)
+            depth = (inp.get('nest') or [0] * len(inp['tree']))[j]
+            g = f.create_group('/'.join(['N%d' % j, 'sub'][:depth] + ['G%d' % j]))
             gen.write_usid(g, t['ds'])
+            if t.get('enc') == 'bytes':
+                for a in ('quantity', 'units'):
+                    g['main'].attrs[a] = np.bytes_(g['main'].attrs[a])
+            elif t.get('enc') == 'vlen':
+                for nm in LINKS:
+                    for a in ('labels', 'units'):
+                        g[nm].attrs[a] = np.array([x.decode() for x in g[nm].attrs[a]], dtype=h5py.string_dtype())
             for c in t['corr']:
                 _corrupt(g, g['main'] if 'main' in g else None, c)
         if inp['extra']:
@@ -240,14 +275,25 @@ def run_impl(inp, work):
         names = sorted(names)
         for n in names:
             out['descs'].append({'name': '/' + n, 'desc': describe(f, f[n])})
-            r = call(hdf_utils.check_if_main, f[n])
+            with quiet():
+                r = call(hdf_utils.check_if_main, f[n], verbose=True) if inp.get('verbose') else call(hdf_utils.check_if_main, f[n])
             out['check'].append(bool(r[1]) if r[0] == 'ok' else {'err': r[1], 'cls': r[2]})
+            if r[0] == 'ok' and not isinstance(r[1], (bool, np.bool_)):
+                out.setdefault('not_bool', []).append([n, type(r[1]).__name__])
             r = call(USIDataset, f[n])
             out['wrap'].append('ok' if r[0] == 'ok' else r[1])
-        r = call(hdf_utils.get_all_main, f)
+        with quiet():
+            r = call(hdf_utils.get_all_main, f, verbose=True) if inp.get('verbose') else call(hdf_utils.get_all_main, f)
         out['all_main'] = sorted(x.name for x in r[1]) if r[0] == 'ok' else {'err': r[1], 'cls': r[2]}
+        # the recursive search started at every top-level group
+        out['sub_search'] = {}
+        for top in sorted(f.keys()):
+            if isinstance(f[top], h5py.Group):
+                r = call(hdf_utils.get_all_main, f[top])
+                out['sub_search'][top] = sorted(x.name for x in r[1]) if r[0] == 'ok' else {'err': r[1], 'cls': r[2]}
         # a group instead of a dataset
-        r = call(hdf_utils.check_if_main, f['G0'])
+        g0 = [n for n in names if n.endswith('G0/main') or '/G0/' in '/' + n]
+        r = call(hdf_utils.check_if_main, f[g0[0]].parent if g0 else f[sorted(f.keys())[0]])
         out['group_check'] = bool(r[1]) if r[0] == 'ok' else {'err': r[1]}
     return out
 
@@ -272,6 +318,14 @@ def oracle(inp, obs):
         fails.append('search-raises: get_all_main raised %s' % obs['all_main']['cls'])
     elif obs['all_main'] != sorted(valid):
         fails.append('search-inexact: get_all_main returned %s, valid Main datasets are %s' % (obs['all_main'], sorted(valid)))
+    for top, got in obs.get('sub_search', {}).items():
+        want_sub = sorted(v for v in valid if v.startswith('/' + top + '/'))
+        if isinstance(got, dict):
+            fails.append('search-raises: get_all_main(%s) raised %s' % (top, got['cls']))
+        elif got != want_sub:
+            fails.append('search-inexact-subgroup: get_all_main(/%s) returned %s, valid Main datasets below it are %s' % (top, got, want_sub))
+    if obs.get('not_bool'):
+        fails.append('not-a-boolean: check_if_main returned %s' % (obs['not_bool'][:3],))
     if obs['group_check'] is not False:
         fails.append('group: check_if_main on a group gave %s' % (obs['group_check'],))
     return fails
@@ -279,7 +333,7 @@ def oracle(inp, obs):
 
 def _corr_of(inp, name):
     try:
-        j = int(name.split('/')[1][1:])
+        j = int([p for p in name.split('/') if p.startswith('G')][0][1:])
         return inp['tree'][j]['corr'] or 'no corruption'
     except Exception:
         return 'unrelated'
